@@ -21,6 +21,8 @@ from . import common
 from .common import Check, enc
 
 warnings.filterwarnings("ignore")
+import logging  # noqa: E402
+logging.getLogger("codebasin").setLevel(logging.CRITICAL)
 
 KINDS = {"NumericalConstant": 0, "CharacterConstant": 1, "StringConstant": 2, "Identifier": 3,
          "Operator": 4, "Punctuator": 5, "Unknown": 6}
@@ -547,8 +549,65 @@ class C03(Check):
     def self_tests(self):
         problems = []
         problems += self.if_tests()
+        problems += self.include_tests()
         problems += self.gcc_tests()
         return problems
+
+    # ---- third observation point: the operand of a computed #include ----
+    def include_observation(self, case, expected_name):
+        """finder.find on  #defines / #define XSTR_(s) #s / #define XSTR(s) XSTR_(s) / #include XSTR(INPUT);
+        returns True iff the header called expected_name is attributed to the platform."""
+        import codebasin
+        from codebasin import finder
+        root = common.scratch() / "c03inc"
+        if root.exists():
+            shutil.rmtree(root)
+        root.mkdir(parents=True)
+        lines, defs = [], []
+        for m in case["macros"]:
+            if is_D(m):
+                defs.append(dash_d_text(m))
+            else:
+                lines.append(define_text(m))
+        lines += ["#define XSTR_(s) #s", "#define XSTR(s) XSTR_(s)", f"#include XSTR({case['input']})", "int after;", ""]
+        f = root / "main.c"
+        f.write_text("\n".join(lines))
+        h = root / expected_name
+        h.write_text("int in_header;\n")
+        (root / "decoy.h").write_text("int decoy;\n")
+        cb = codebasin.CodeBase(root)
+        cfg = {"p": [{"file": str(f), "defines": defs, "include_paths": [], "include_files": []}]}
+        state = finder.find(root, cb, cfg)
+        tree = state.get_tree(str(h))
+        if tree is None:
+            return False
+        assoc = state.get_map(str(h))
+        return any("p" in assoc[n] for n in tree.walk() if type(n).__name__ == "CodeNode")
+
+    def include_tests(self):
+        """cases whose S-expansion is a single identifier or number: `#include XSTR(INPUT)` must attribute
+        the header of that name (observed through finder.find); a differently named header must not be."""
+        n, bad = 0, []
+        limit = 40 if self.tier == "quick" else 400
+        for c, sa in self._spec_log:
+            if n >= limit:
+                break
+            if sa[0] == "Ok" and len(sa[1]) == 1 and re.fullmatch(r"[A-Za-z0-9_]{1,12}", sa[1][0]) and \
+                    "defined" not in c["input"] and "XSTR" not in json.dumps(c) and \
+                    [canon_tok(t) for t in lex(c["input"])] != sa[1]:
+                name = sa[1][0]
+                try:
+                    got = self.include_observation(c, name)
+                except Exception as e:  # noqa
+                    got = ["EXC", type(e).__name__]
+                n += 1
+                if got is not True and self.impl_view_for_spec(c, self.impl(c)) == sa:
+                    bad.append({"case": c, "header": name, "attributed": got})
+        self.hist["include_route_cases"] = n
+        self.hist["include_route_disagreements"] = len(bad)
+        if bad:
+            return [f"#include route (finder.find) disagrees with expand() on {len(bad)} of {n} cases: {bad[0]}"]
+        return []
 
     def if_tests(self):
         """cases whose S-expansion is one decimal integer: `#if (INPUT) == k` must select the then-branch
